@@ -13,14 +13,30 @@ kind=cookie  : `secret= addr= h=H  tsecret= taddr= th=H  mut=-|x<pos>.<xor hex>|
                 among candidate framings with an independent HMAC-SM3)
 kind=decode  : `msg=<hex of a handshake message: 12-byte header ‖ body>`
    observed  : `ok=<0|1> f=H|- ck=<hex|->`
-kind=secret  : `cfg=<hex|-> n=<conns> calls=<calls per conn>`
-   observed  : `lens=<l>.<l>… stable=<0|1> distinct=<0|1> iscfg=<0|1>`
+kind=secret  : `cfg=<hex|-> n=<conns> calls=<calls per conn>` [`rand=<chunk>/<stream hex>;<stream hex>…`]
+               (rand: no secret configured; connection i has its own Config whose Rand produces
+                stream i and returns at most `chunk` bytes per Read)
+   observed  : `lens=<l>.<l>… stable=<0|1> distinct=<0|1> iscfg=<0|1>` [`sec=<hex>;<hex>… drawn=<n>.<n>…`]
+               (with rand: the secrets, and how many bytes each connection took from its source)
 kind=server  : `cfg=<hex|-> peers=<addr hex>;<addr hex> hellos=H;H;… steps=<step>,<step>,…`
                step = `<a|b>:<hello idx>:<cookie ref>:<p|o>:<fragments>[:<n>|<n>r]`  (n hellos in the one datagram: packed into one record | one record each)
                or `<a|b>:w:<ms>` (the peer stays silent for that long)
                optional case token `rto=<ms>` = InitialRetransmitTimeout (max = 2x), default: never
+               source `p` = the connection's peer, `o` = an unrelated address, `q` = the peer's host
+               with another port
                cookie ref = `-` | `k<i>` (cookie of the i-th HelloVerifyRequest seen) | `x<i>.<pos>` | `r`
+                          | `g<n>` (rand only, n < 16: forged for this address and hello under the
+                            secret made of the first n bytes of the connection's random stream and zeros)
+               optional case tokens:
+               `pk=<k><k>` what the two peers are: `s` an opaque net.Addr printing the given text
+                            (default), `u` a *net.UDPAddr made from the text host:port, `m` the same
+                            with the IPv4 address held in its 16-byte IPv4-mapped form; for u/m the
+                            text must be the canonical print of (host, port)
+               `cache=<session id hex>/<suite hex4>;…` sessions in Config.SessionCache beforehand
+               `rand=<chunk>/<stream a>;<stream b>` no configured secret; connection a/b has its own
+                            Config whose Rand produces that stream, at most `chunk` bytes per Read
    observed  : `steps=<r>,<r>,… flight=<types>/<keyops>|- cb=<GetConfigForClient calls before the accepted hello>`
+               [`ra=<hex>;<hex>` with pk: RemoteAddr().String() of the two server connections]
                r = `<datagrams>/<hs types|->/<sizes|->/<alerts>/<request bytes>/<keyops>` or `acc`
 -/
 import Gotlcp.Oracle.Common
@@ -137,10 +153,52 @@ def judgeDecode (ct ot : List String) : Option Verdict := do
     else none
   pure { model := model, spec := spec, trivial := d.isNone && !okObs }
 
+def secretLen : Nat := Facts.dtlcp.cookieSecretLen
+
+/-- `rand=<chunk>/<stream>;<stream>…` -/
+def parseRand (s : String) : Option (Nat × List Bytes) :=
+  match s.splitOn "/" with
+  | [c, ss] => do
+    let chunk ← c.toNat?
+    let streams ← (ss.splitOn ";").mapM hexOpt
+    if chunk == 0 || streams.any (·.length < secretLen) then none else pure (chunk, streams)
+  | _ => none
+
+/-- the secret a connection without a configured one ends up with: `io.ReadFull` of `secretLen`
+bytes from a source that returns at most `chunk` bytes per Read -/
+def drawModel (chunk : Nat) (stream : Bytes) : Bytes :=
+  drawSecret secretLen stream (List.replicate secretLen chunk)
+
+def pairwiseDistinct : List Bytes → Bool
+  | [] => true
+  | x :: xs => !xs.contains x && pairwiseDistinct xs
+
+def judgeSecretRand (ot : List String) (n : Nat) (rs : String) : Option Verdict := do
+  let (chunk, streams) ← parseRand rs
+  if streams.length != n then none else
+  let secs := streams.map (drawModel chunk)
+  let dots (l : List Nat) := ".".intercalate (l.map toString)
+  let model := s!"lens={dots (secs.map List.length)} stable=1 distinct={b01 (n > 1 && pairwiseDistinct secs)} iscfg=0 sec={";".intercalate (secs.map Hex.encode)} drawn={dots (List.replicate n secretLen)}"
+  let spec : Option (String × String) :=
+    match kv ot "stable", kv ot "iscfg", (kv ot "lens").bind parseNatList', (kv ot "drawn").bind parseNatList',
+        ((kv ot "sec").map (·.splitOn ";")).bind (·.mapM hexOpt) with
+    | some st, some ic, some lens, some drawn, some osec =>
+      if ic == "1" then some ("shape", "no secret configured but iscfg=1")
+      else if st != "1" then some ("secret-unstable", "the cookie secret changed within one connection")
+      else if lens.length != n || drawn.length != n || osec.length != n then some ("shape", "one entry per connection expected")
+      else Spec.Cookie.judgeRandomSecret lens drawn streams (fun i j => osec.getD i [] == osec.getD j [])
+    | _, _, _, _, _ => some ("shape", "missing tokens")
+  pure { model := model, spec := spec, trivial := n == 0 }
+where
+  parseNatList' (s : String) : Option (List Nat) := if s == "-" then some [] else (s.splitOn ".").mapM String.toNat?
+
 def judgeSecret (ct ot : List String) : Option Verdict := do
   let cfg ← kvHex ct "cfg"
   let n ← kvNat ct "n"
   let configured := !cfg.isEmpty
+  match kv ct "rand" with
+  | some rs => if configured then none else judgeSecretRand ot n rs
+  | none =>
   let l := if configured then cfg.length else Facts.dtlcp.cookieSecretLen
   let lens := ".".intercalate ((List.replicate n l).map toString)
   -- model: configured → every connection uses cfg (not distinct); otherwise own 32-byte draws
@@ -198,17 +256,37 @@ structure Issued where
   input : Bytes
   binding : Spec.Cookie.Binding
 
-/-- resolve a cookie reference: (non-empty?, issued cookie it derives from, altered?) -/
-def resolveRef (issued : List Issued) (r : String) : Option (Bool × Option Issued × Bool) :=
-  if r == "-" then some (false, none, false)
-  else if r == "r" then some (true, none, true)
+/-- resolve a cookie reference: (non-empty?, issued cookie it derives from, altered?,
+forged under a guess that knows this many bytes of the connection's random stream) -/
+def resolveRef (issued : List Issued) (r : String) : Option (Bool × Option Issued × Bool × Option Nat) :=
+  if r == "-" then some (false, none, false, none)
+  else if r == "r" then some (true, none, true, none)
   else match r.toList with
-  | 'k' :: rest => (String.ofList rest).toNat?.map fun i => (true, issued[i]?, false)
+  | 'k' :: rest => (String.ofList rest).toNat?.map fun i => (true, issued[i]?, false, none)
   | 'x' :: rest =>
     match (String.ofList rest).splitOn "." with
-    | [i, _] => i.toNat?.map fun i => (true, issued[i]?, true)
+    | [i, _] => i.toNat?.map fun i => (true, issued[i]?, true, none)
     | _ => none
+  | 'g' :: rest => (String.ofList rest).toNat?.bind fun n =>
+      if n < Spec.Cookie.minRandomSecret then some (true, none, false, some n) else none
   | _ => none
+
+/-- `cache=<session id>/<suite>;…` -/
+def parseCache (s : String) : Option (List (Bytes × Nat)) :=
+  (s.splitOn ";").mapM fun e =>
+    match e.splitOn "/" with
+    | [sid, su] => do
+      let sb ← hexOpt sid
+      let ub ← hexOpt su
+      if ub.length != 2 || sb.isEmpty then none else pure (sb, beNat ub)
+    | _ => none
+
+/-- peer kinds: `s` opaque text, `u` / `m` a UDP address whose text must be the canonical
+host:port print (the model's `hostPort`) -/
+def peerOk (kind : Char) (text : Bytes) : Bool :=
+  if kind == 's' then true
+  else if kind == 'u' || kind == 'm' then (endpointOf text).isSome
+  else false
 
 def sumNat (l : List Nat) : Nat := l.foldl (· + ·) 0
 
@@ -233,7 +311,22 @@ def judgeServer (ct ot : List String) : Option Verdict := do
   let hellos ← ((kv ct "hellos").map (·.splitOn ";")).bind (·.mapM parseHello)
   let steps ← ((kv ct "steps").map (·.splitOn ",")).bind (·.mapM parseStep)
   if peers.length != 2 || !hellos.all Hello.wf then none else
-  let keyOf (c : Nat) : Bytes := if cfg.isEmpty then [0xff, 0xfe, UInt8.ofNat c] ++ List.replicate 70 0xee else cfg
+  let kinds := ((kv ct "pk").getD "ss").toList
+  if kinds.length != 2 || !((kinds.zip peers).all fun (k, t) => peerOk k t) then none else
+  let cache ← match kv ct "cache" with
+    | some cs => parseCache cs
+    | none => some []
+  let rnd ← match kv ct "rand" with
+    | some rs => (parseRand rs).map some
+    | none => some none
+  if rnd.isSome && (!cfg.isEmpty || (rnd.map (·.2.length)) != some 2) then none else
+  -- the secret of connection c: the configured one; else what it reads from its random source
+  -- (when that is a given stream); else a symbol of its own
+  let keyOf (c : Nat) : Bytes :=
+    if !cfg.isEmpty then cfg
+    else match rnd with
+      | some (chunk, streams) => drawModel chunk (streams.getD c [])
+      | none => [0xff, 0xfe, UInt8.ofNat c] ++ List.replicate 70 0xee
   let obsSteps := ((kv ot "steps").getD "").splitOn ","
   -- walk the steps
   -- started / dead: connections that have read their first hello / whose handshake has failed
@@ -259,7 +352,8 @@ def judgeServer (ct ot : List String) : Option Verdict := do
       let h ← hellos[st.hello]?
       let peer ← peers[st.conn]?
       let body := encodeBody h []
-      let (nonEmpty, src, altered) ← resolveRef issued st.ref
+      let (nonEmpty, src, altered, forged) ← resolveRef issued st.ref
+      if forged.isSome && rnd.isNone then none else
       -- request bytes: the cookie adds its own length to the body
       let cookieLen := if nonEmpty then macLen else 0
       -- `pack` complete hellos share one record header
@@ -286,9 +380,15 @@ def judgeServer (ct ot : List String) : Option Verdict := do
         go rest obs.tail issued false started dead (m :: outs) f
       else
         let input := cookieInput peer (marshal h)
-        let valid := match src with
-          | some i => acceptsIdeal i.key i.input (keyOf st.conn) input altered
-          | none => false
+        let valid := match src, forged, rnd with
+          | some i, _, _ => acceptsIdeal i.key i.input (keyOf st.conn) input altered
+          | none, some n, some (_, streams) =>
+            -- forged for exactly this input under a guessed secret: valid iff the guess is the key
+            sameKey ((streams.getD st.conn []).take n ++ List.replicate (secretLen - n) 0) (keyOf st.conn)
+          | none, _, _ => false
+        let neverIssued := match forged with
+          | some n => s!"a cookie that was never issued (forged under a secret guessed from {n} byte(s) of the connection's random source)"
+          | none => "a cookie that was never issued"
         -- the property's verdict on an acceptance / refusal
         let must := match src with
           | some i => Spec.Cookie.mustAccept i.binding binding altered
@@ -301,7 +401,7 @@ def judgeServer (ct ot : List String) : Option Verdict := do
               if o == "acc" then (if must then none else
                 some ("binding", "cookie accepted for " ++ (match src with
                   | some i => Spec.Cookie.bindingBreach i.binding binding altered
-                  | none => "a cookie that was never issued")))
+                  | none => neverIssued)))
               else if must then some ("rejects-valid", "the issued cookie was refused for its own address, parameters and secret")
               else match r? with
                 | some r => Spec.Cookie.judgePreCookie r
@@ -318,7 +418,7 @@ def judgeServer (ct ot : List String) : Option Verdict := do
               if o == "acc" then
                 some ("binding", "cookie accepted for " ++ (match src with
                   | some i => Spec.Cookie.bindingBreach i.binding binding altered
-                  | none => if nonEmpty then "a cookie that was never issued" else "an empty cookie"))
+                  | none => if nonEmpty then neverIssued else "an empty cookie"))
               else if must then some ("rejects-valid", "the issued cookie was refused for its own address, parameters and secret")
               else match r? with
                 | some r => Spec.Cookie.judgePreCookie r
@@ -328,10 +428,17 @@ def judgeServer (ct ot : List String) : Option Verdict := do
   -- the flight after acceptance is not predicted; it must show that the instrumentation sees
   -- certificates and private-key operations when they do happen
   let flight := (kv ot "flight").getD "-"
+  -- the accepted hello names a session the server has cached: an abbreviated handshake (no
+  -- certificate, no private-key operation) is what the protocol prescribes then
+  let resumable := (do
+    let i ← outs.findIdx? (· == "acc")
+    let st ← steps[i]?
+    let h ← hellos[st.hello]?
+    pure (cache.any fun e => e.1 == h.sessionId)).getD false
   let fail2 := match fail with
     | some x => some x
     | none =>
-      if done && obsSteps.getLast? == some "acc" then
+      if done && obsSteps.getLast? == some "acc" && !resumable then
         match flight.splitOn "/" with
         | [ty, ky] =>
           match parseNatList ty, ky.toNat? with
@@ -350,7 +457,10 @@ def judgeServer (ct ot : List String) : Option Verdict := do
       | some 0 => none
       | some n => some ("callback-before-cookie", s!"{n} application callback(s) (GetConfigForClient) ran before a valid cookie")
       | none => some ("shape", "missing cb")
-  let model := s!"steps={",".intercalate outs} flight={flight} cb={cbModel}"
+  -- the address each connection binds its cookies to is the text given (for u/m peers: the
+  -- model's `hostPort host port`, checked by `peerOk`)
+  let ra := if (kv ct "pk").isSome then s!" ra={";".intercalate (peers.map Hex.encode)}" else ""
+  let model := s!"steps={",".intercalate outs} flight={flight} cb={cbModel}{ra}"
   pure { model := model, spec := fail3, trivial := steps.isEmpty }
 
 def judge (c o : String) : Option Verdict := do
